@@ -29,6 +29,7 @@ mod ids;
 mod ioread;
 mod life;
 mod limits;
+mod lsender;
 mod peer;
 mod pipeline;
 mod reasm;
@@ -93,6 +94,7 @@ fn main() {
         "session" => session::main(&opts),
         "codec" => codec::main(&opts),
         "credit" => credit::main(&opts),
+        "lsender" => lsender::main(&opts),
         "frame" => frame::main(&opts),
         "recvcredit" => recvcredit::main(&opts),
         "reasm" => reasm::main(&opts),
